@@ -62,7 +62,14 @@ type callRec struct {
 
 // settings turns an abstract environment into real ContextApply options.
 // calls (optional) receives one record per user-function invocation.
-func (b *Built) settings(env *Env, calls *[]callRec) ([]xsel.ContextApply, error) {
+// boundNS: a node-set the caller bound to a variable - the slice handed over, and a copy of what it held then
+type boundNS struct {
+	name string
+	held xsel.NodeSet
+	was  xsel.NodeSet
+}
+
+func (b *Built) settings(env *Env, calls *[]callRec, bound ...*[]boundNS) ([]xsel.ContextApply, error) {
 	var out []xsel.ContextApply
 	for p, u := range env.Ns {
 		out = append(out, xsel.WithNS(p, str(u)))
@@ -90,6 +97,9 @@ func (b *Built) settings(env *Env, calls *[]callRec) ([]xsel.ContextApply, error
 		}
 		if err != nil {
 			return nil, err
+		}
+		if ns, ok := r.(xsel.NodeSet); ok && len(bound) > 0 && bound[0] != nil {
+			*bound[0] = append(*bound[0], boundNS{name: str(v.Lo), held: ns, was: append(xsel.NodeSet{}, ns...)})
 		}
 		out = append(out, xsel.WithVariableNS(str(v.Sp), str(v.Lo), r))
 	}
@@ -160,7 +170,8 @@ func (b *Built) judgeExec(fam string, env *Env, ctx int, e *Expr, want Val, styl
 	if want.T == "err" && skipWhys[want.Why] {
 		return nil, false, ""
 	}
-	st, err := b.settings(env, nil)
+	var bound []boundNS
+	st, err := b.settings(env, nil, &bound)
 	if err != nil {
 		return []Failure{{Aspect: "harness", Fam: fam, Ctx: ctx, Detail: err.Error()}}, false, ""
 	}
@@ -190,6 +201,17 @@ func (b *Built) judgeExec(fam string, env *Env, ctx int, e *Expr, want Val, styl
 			continue
 		}
 		o := execSafe(start, &c.g, st)
+		// a variable evaluates to the bound value and the binding is the caller's: the slice holds what it held, in the order it held it
+		for _, bn := range bound {
+			same := len(bn.held) == len(bn.was)
+			for i := 0; same && i < len(bn.was); i++ {
+				same = bn.held[i] == bn.was[i]
+			}
+			if !same {
+				add("value", fmt.Sprintf("the node-set the caller bound to $%s was changed by the evaluation", bn.name))
+				copy(bn.held, bn.was)
+			}
+		}
 		switch {
 		case o.panic != nil:
 			add("panic", fmt.Sprintf("Exec panicked: %v", o.panic))
